@@ -388,7 +388,9 @@ def tables(agent, case, batch, seed):
             per_agent.append({"qs": lists(torch.cat([c(sst, sac) for c in crit], dim=1)),
                               "qns": lists(torch.cat([c(sns, nac) for c in critt], dim=1)),
                               "r": lists(rw[a].reshape(-1)), "d": lists(dn[a].reshape(-1))})
-        return {"agents": per_agent}
+        return {"agents": per_agent,
+                "stack": {"ids": [AGENT_IDS.index(a) for a in AID],
+                          "dict": [[AGENT_IDS.index(a), lists(ac[a][0])] for a in ac.keys()], "stacked": lists(sac[0])}}
 
 
 # ---------------------------------------------------------------------------------- reference losses (float64, independent of Coq)
@@ -450,7 +452,7 @@ def relerr(a, b):
 # ---------------------------------------------------------------------------------- the driver
 class C08(vlib.Driver):
     pid = "C08"
-    preamble = "From Coq Require Import QArith.\nFrom AgileV Require Import C08.Model C08.Check.\nOpen Scope Q_scope."
+    preamble = "From Coq Require Import QArith.\nFrom AgileV Require Import C08.Model C08.Check C08.ModelMA C08.CheckMA.\nOpen Scope Q_scope."
     rule = ("one case = (algorithm, batch with a done pattern and dyadic rewards, gamma, tau, policy_freq, number of "
             "consecutive learn calls, optional pre-history learn+clone / checkpoint round trip / mutation). Distinct = distinct "
             "(algorithm incl. variant, done pattern, gamma, tau, policy_freq, steps, pre-history). Non-trivial = the batch has at "
@@ -471,7 +473,7 @@ class C08(vlib.Driver):
         taus = [1e-3, 0.25, 1.0]
         pres = [[], ["learn", "clone"], ["learn", "ckpt"], ["learn", "mut_arch"], ["learn", "mut_param"], ["learn", "mut_act"],
                 ["learn", "load"]]
-        per_algo = 12 if tier == "quick" else 120
+        per_algo = 9 if tier == "quick" else 120
         variants = ["DQN", "DDQN", "CQN", "CDQN", "Rainbow", "DDPG", "TD3", "MADDPG", "MATD3"]
         n = 0
         for algo in variants:
@@ -524,9 +526,9 @@ class C08(vlib.Driver):
         "CDQN": [{"form": "tuple", "obs": "dict"}, {"obs": "disc", "pre": ["mut_arch", "ckpt"]}],
         "Rainbow": [{"obs": "image"}, {"obs": "dict", "per": True}, {"pre": ["mut_param", "ckpt"]}, {"pre": ["learn", "mut_hp"], "per": True},
                     {"obs": "disc", "pre": ["clone", "mut_param", "clone"]}],
-        "DDPG": [{"default_noise": True}, {"obs": "dict"}, {"obs": "image", "share": True}, {"pre": ["clone", "mut_arch", "clone"], "share": True},
+        "DDPG": [{"default_noise": True, "lo": [-1.0, -1.0], "hi": [1.0, 1.0]}, {"obs": "dict"}, {"obs": "image", "share": True}, {"pre": ["clone", "mut_arch", "clone"], "share": True},
                  {"pre": ["mut_arch", "ckpt"]}, {"pre": ["learn", "mut_hp"]}],
-        "TD3": [{"form": "tuple"}, {"default_noise": True, "form": "tuple"}, {"obs": "dict", "pre": ["mut_arch", "load"]},
+        "TD3": [{"form": "tuple"}, {"default_noise": True, "form": "tuple", "lo": [-1.0, -1.0], "hi": [1.0, 1.0]}, {"obs": "dict", "pre": ["mut_arch", "load"]},
                 {"pre": ["learn", "mut_hp"], "share": True}, {"obs": "image", "pre": ["clone", "mut_act", "clone"]}],
         "MADDPG": [{"key_order": "reversed"}, {"ids_unsorted": True}, {"ids_unsorted": True, "key_order": "reversed", "pre": ["learn", "clone"]},
                    {"ma_discrete": True}, {"ma_discrete": True, "key_order": "reversed"}, {"pre": ["mut_arch", "ckpt"]}, {"pre": ["learn", "mut_hp"]}],
@@ -632,6 +634,16 @@ class C08(vlib.Driver):
             prev = s0
             for k in range(case["steps"]):
                 seed_k = case["seed"] + 1000 + k
+                if case.get("default_noise"):
+                    # the default noise_clip (0.5) is 2.5 sigma of the default policy_noise (0.2): pick the torch seed of
+                    # this call so that the clip really acts on a not-done row (otherwise the default would go untested)
+                    live = (batch["done"].reshape(-1) == 0)
+                    for s_try in range(seed_k, seed_k + 200000, 977):
+                        torch.manual_seed(s_try)
+                        nz = torch.empty_like(batch["action"]).normal_(0, 0.2)
+                        if bool((nz[live].abs() > 0.5).any()):
+                            seed_k = s_try
+                            break
                 rec = {"tables": tables(A, case, batch, seed_k)}
                 if k == 0:
                     rec["tables2"] = tables(A, case, batch2, seed_k)
@@ -756,6 +768,7 @@ class C08(vlib.Driver):
                 terms.append(f"check_rainbow {coq_Q(g32)} {coq_Q(gn)} {coq_Q(f32(rb['vmin']))} {coq_Q(f32(rb['vmax']))} {coq_Q(dz)} "
                              f"{Ql(t['support'])} {coq_bool(use1)} {coq_bool(usen)} {rrows(t['one'])} {rrows(t['n'])} {Ql(t['w'])} "
                              f"{coq_Q(out['loss'])} {elem_obs}")
+                terms.append(f"check_rainbow_mass {Ql(t['support'])} {rrows(t['one'])} && check_rainbow_mass {Ql(t['support'])} {rrows(t['n'])}")
             elif algo in SINGLE_AC:
                 nc = 1 if algo == "DDPG" else 2
                 terms.append(f"check_ac {g} {nc}%nat {arows(t)} {arows(t2)} {coq_Q(out['loss'])}")
@@ -764,6 +777,10 @@ class C08(vlib.Driver):
                 nc = 1 if algo == "MADDPG" else 2
                 for i, ta in enumerate(t["agents"]):
                     terms.append(f"check_ac {g} {nc}%nat {arows(ta)} {arows(t2['agents'][i])} {coq_Q(out['loss'][i])}")
+                if k == 0:
+                    sk = t["stack"]
+                    dct = "[" + "; ".join(f"({a}%nat, {Ql(v)})" for a, v in sk["dict"]) + "]"
+                    terms.append(f"check_stack [{'; '.join(str(a) + '%nat' for a in sk['ids'])}] {dct} {Ql(sk['stacked'])}")
         # soft-update traces
         pf, _ = self.update_steps(case, obs)
         tau = coq_Q(obs["tau"])
